@@ -49,8 +49,9 @@ def judge(acc, root, m, cc, enc, d, tag):
     if r.kind.startswith("ESCAPE") or r.kind == "GUARD":
         fp = {"clause": "undocumented-outcome", "exc": r.kind, "where": r.details.get("where"), "msg": msg_head(r.details.get("msg")), "root": oracle.rootclass(root)}
         if r.details.get("where") in ("encrypted", "process_response"):
-            ctx = oracle.enc_context(r.events, root, enc)
+            ctx = oracle.enc_context(r.events, root, enc, cc)
             fp["requested"] = ctx["requested"]
+            fp["area_can_encrypt"] = ctx["area_can_encrypt"]
             fp["inconsistent"] = ctx["requested"] != ctx["response_sessions_encrypt"]
         acc.violation(fp, d(), f"strict decoding as {root} raised {r.kind} in {r.details.get('where')}: {r.details.get('msg')}", size=len(m))
     elif r.kind not in oracle.DOCUMENTED:
@@ -84,8 +85,15 @@ def run_unit(unit):
         def on_case(case):
             acc.count("base_cases")
             fams = ["subst", "length"]
+            ref0 = None
+            if unit["tier"] == "thorough" or unit["kind"] == "struct":
+                # every member / boundary value of every constrained field (selectors reach every union arm)
+                from ..ref.decode import decode
+
+                fams.append("value")
+                ref0 = decode(case.root, case.b, cc=case.cc, enc=case.enc)
             for fam in fams:
-                for m, f in faultspace.FAMILIES[fam](case, None, unit):
+                for m, f in faultspace.FAMILIES[fam](case, ref0, dict(unit, tier="quick") if fam == "value" else unit):
                     acc.count("family:" + f["fault"])
                     judge(acc, case.root, m, case.cc, case.enc, lambda: dict(case.desc(), harness="arbitrary", input=m.hex(), fault=f), "mutate")
                     if unit["tier"] == "thorough" and f["fault"] == "subst" and len(m) <= 40:
